@@ -73,7 +73,7 @@ fn render(id: usize, h: &FHist) -> String {
 }
 
 pub fn drv_path(variant: &str) -> String {
-    format!("{}/featdrv/target/{}/release/featdrv", run::VERIF_DIR, variant)
+    format!("{}/featdrv/target/{}/release/featdrv", run::verif_dir(), variant)
 }
 
 /// run one driver build over a batch; returns the output split per history
